@@ -203,11 +203,13 @@ impl RawGroup for FPlain {
     fn extend(&mut self, v: Vec<FNode>) -> bool {
         // sometimes from an iterator without an upper size hint (from_fn),
         // sometimes from the Vec itself (exact hint)
-        if v.len() % 2 == 1 {
-            let mut it = v.into_iter();
-            self.0.extend(std::iter::from_fn(move || it.next()));
-        } else {
-            self.0.extend(v);
+        match v.len() % 3 {
+            1 => {
+                let mut it = v.into_iter();
+                self.0.extend(std::iter::from_fn(move || it.next()));
+            }
+            2 => self.0.extend(Loose(v.into_iter())),
+            _ => self.0.extend(v),
         }
         true
     }
@@ -225,11 +227,13 @@ impl RawGroup for FKeyed {
     fn extend(&mut self, v: Vec<FNode>) -> bool {
         // through DerefMut to the group
         use std::ops::DerefMut;
-        if v.len() % 2 == 1 {
-            let mut it = v.into_iter();
-            self.0.deref_mut().extend(std::iter::from_fn(move || it.next()));
-        } else {
-            self.0.deref_mut().extend(v);
+        match v.len() % 3 {
+            1 => {
+                let mut it = v.into_iter();
+                self.0.deref_mut().extend(std::iter::from_fn(move || it.next()));
+            }
+            2 => self.0.deref_mut().extend(Loose(v.into_iter())),
+            _ => self.0.deref_mut().extend(v),
         }
         true
     }
@@ -699,6 +703,20 @@ fn runner<G: RawGroup + 'static>(g: G, fam: Family, top: NodeId, init_ids: Vec<N
     Box::new(r)
 }
 
+/// An iterator with an honest but inexact size hint (as after `filter`): the
+/// lower bound under-reports, the upper bound leaves room.
+pub struct Loose<I: Iterator>(pub I);
+impl<I: Iterator> Iterator for Loose<I> {
+    type Item = I::Item;
+    fn next(&mut self) -> Option<I::Item> {
+        self.0.next()
+    }
+    fn size_hint(&self) -> (usize, Option<usize>) {
+        let (lo, hi) = self.0.size_hint();
+        (lo / 2, hi.map(|h| h + 1 + h % 3))
+    }
+}
+
 /// Build the group (and its initial members) and wrap it.
 fn build_group(case: &GroupCase, top: NodeId) -> Box<dyn GroupDyn> {
     match case.fam {
@@ -717,11 +735,13 @@ fn build_group(case: &GroupCase, top: NodeId) -> Box<dyn GroupDyn> {
                             n
                         })
                         .collect();
-                    if kids.len() % 2 == 1 {
-                        let mut it = kids.into_iter();
-                        (std::iter::from_fn(move || it.next()).collect(), ids)
-                    } else {
-                        (kids.into_iter().collect(), ids)
+                    match kids.len() % 3 {
+                        1 => {
+                            let mut it = kids.into_iter();
+                            (std::iter::from_fn(move || it.next()).collect(), ids)
+                        }
+                        2 => (Loose(kids.into_iter()).collect(), ids),
+                        _ => (kids.into_iter().collect(), ids),
                     }
                 }
             };
@@ -746,7 +766,14 @@ fn build_group(case: &GroupCase, top: NodeId) -> Box<dyn GroupDyn> {
                             n
                         })
                         .collect();
-                    (kids.into_iter().collect(), ids)
+                    match kids.len() % 3 {
+                        1 => {
+                            let mut it = kids.into_iter();
+                            (std::iter::from_fn(move || it.next()).collect(), ids)
+                        }
+                        2 => (Loose(kids.into_iter()).collect(), ids),
+                        _ => (kids.into_iter().collect(), ids),
+                    }
                 }
             };
             if case.keyed {
@@ -940,10 +967,29 @@ pub fn gen_group_case(bytes: &[u8], gp: &GroupProfile) -> GroupCase {
     let keyed = c.coin(110);
     let init = match c.weighted(&[(0u8, 60), (1, 26), (2, 14)]) {
         0 => Init::New,
-        1 => Init::WithCap([0usize, 1, 2, 3, 4, 8, 23, 64, 40, 63, 65, 100][c.choice(12)]),
+        1 => Init::WithCap([0usize, 1, 2, 3, 4, 8, 23, 64, 40, 63, 65, 100, 128, 64][c.choice(14)]),
         _ => {
-            let n = if c.coin(40) { 9 + c.choice(8) } else { c.choice(5) };
-            Init::FromIter((0..n).map(|_| gen_member(&mut c, gp)).collect())
+            if c.coin(10) {
+                // collected from exactly a block of the readiness bitset (or one more):
+                // simple members, most of them parked
+                let n = [64usize, 65, 128, 63][c.choice(4)];
+                let t = c.weighted(&[(1u8, 60), (0, 20), (3, 20)]);
+                Init::FromIter(
+                    (0..n)
+                        .map(|_| {
+                            let script = match t {
+                                0 => vec![],
+                                1 => vec![crate::world::Step::Later],
+                                _ => vec![crate::world::Step::Never],
+                            };
+                            ChildSpec::Leaf(crate::spec::LeafSpec { script, always: false, hint: 0, dropwake: false })
+                        })
+                        .collect(),
+                )
+            } else {
+                let n = if c.coin(40) { 9 + c.choice(8) } else { c.choice(5) };
+                Init::FromIter((0..n).map(|_| gen_member(&mut c, gp)).collect())
+            }
         }
     };
     let nops = c.choice(gp.max_ops + 1);
@@ -979,7 +1025,7 @@ pub fn gen_group_case(bytes: &[u8], gp: &GroupProfile) -> GroupCase {
                     2 => vec![crate::world::Step::Yield(true)],
                     _ => vec![crate::world::Step::Never],
                 };
-                ops.push(GOp::Insert(ChildSpec::Leaf(crate::spec::LeafSpec { script, always: false, hint: false, dropwake: false })));
+                ops.push(GOp::Insert(ChildSpec::Leaf(crate::spec::LeafSpec { script, always: false, hint: 0, dropwake: false })));
             }
             continue;
         }
